@@ -45,6 +45,16 @@ CHECKS = {
               "implementation must agree with the model on replayed LP answers and is checked against certified must-True/"
               "must-False verdicts."),
         design="4 (C03)", note=NOTE_R),
+    "C04": dict(
+        technique="Coq proof about a hand-written executable model + correspondence with LP replay + certified exact oracle",
+        text=("Theorems C04_refine / C04_relax / C04_every_tactic / C04_kaykobad_cone / C04_errors_total (props/C04.v) about "
+              "model/Tactics.v: for every LP oracle meeting lp_spec 0 and EVERY tactic order (any list of tactic numbers), "
+              "refining returns constraints that with the context imply the originals, relaxing returns constraints implied by "
+              "them that mention no eliminated variable; each of the five tactics is proved implication-preserving (Kaykobad cone "
+              "lemma for arbitrary n, LP bound, change of variable, substitution chains by induction on fuel, LP-active rows with "
+              "sign-checked multipliers). The model is replayed on the implementation's recorded LP answers and must reproduce terms "
+              "(1e-9) and tactic numbers exactly; C04 is also decided exactly on every implementation result."),
+        design="4 (C04)", note=NOTE_R + " sympy.solve is replaced in the model by exact Gauss-Jordan (solutions compared at 1e-9); inputs must not use the reserved variable name '_' (C04_underscore_is_reserved shows why)."),
     "C11": dict(
         technique="Coq proof about a hand-written executable model + correspondence (LP replay) + exact evaluation oracle",
         text=("Theorems C11_contains_exact/_contains_real/_unassigned/_mono (model/Term.v contains_behavior: membership decided exactly, "
@@ -75,7 +85,6 @@ NOT_YET = {
     "C07": "check built; proofs/PolyLP.v being repaired after the D1 fix changed the model",
     "C01": "check under construction in this session: needs the tactic soundness proofs (C04) to instantiate C05 for polyhedra",
     "C02": "check under construction in this session: needs the tactic soundness proofs (C04) to instantiate C05 for polyhedra",
-    "C04": "check under construction in this session (model/Tactics.v exists; proofs and correspondence pending)",
     "C08": "check under construction in this session",
     "C09": "check under construction in this session (grammar model pending)",
     "C10": "check under construction in this session (printer model pending)",
